@@ -236,8 +236,28 @@ def to_string(value: JSValue) -> str:
         return number_to_string(value)
     if isinstance(value, str):
         return value
+    if isinstance(value, JSArray):
+        return array_to_string(value)
     # TODO: Handle objects with toString
     return "[object Object]"
+
+
+# Arrays whose string conversion is in progress; an array met again inside itself reads as ""
+_arrays_being_joined: set = set()
+
+
+def array_to_string(arr: "JSArray", separator: str = ",") -> str:
+    """Array.prototype.join: undefined and null elements read as "", nested arrays are joined."""
+    if id(arr) in _arrays_being_joined:
+        return ""
+    _arrays_being_joined.add(id(arr))
+    try:
+        return separator.join(
+            "" if elem is UNDEFINED or elem is NULL else to_string(elem)
+            for elem in arr._elements
+        )
+    finally:
+        _arrays_being_joined.discard(id(arr))
 
 
 class JSObject:
